@@ -61,6 +61,10 @@ def run(ctx):
             mk = lambda: {'t': rnd.choice([0, 1, 86400, 1000000000, -1, 1.5, 1700000000]), 'f': rnd.choice(['%Y-%m-%d', '%H:%M:%S', '%Y', '%s', '%A %B', '%Y-%m-%dT%H:%M:%S%.f']),
                           's': rnd.choice(['2020-01-02', '12:34:56', '1999', '2020-01-02T03:04:05.25', 'x'])}
             A = [mk() for _ in range(rnd.randint(1, 5))]; B = [mk() for _ in range(rnd.randint(1, 5))]
+        if i % 12 == 11:
+            # very many small values first: nothing counted per value (depth, index, buffers) may leak into later records
+            cfg = lib.new_cfg(select=rnd.choice([['.'], ['(size .)=n', '.'], []]))
+            A = [rnd.choice([[], {}, [[]], {'e': {}}]) for _ in range(1100)]; B = [[1, [2]], {'a': {'b': [3]}}, [], 7]
         perm = list(A + B); rnd.shuffle(perm)
         if nomodel: cfg = dict(cfg); cfg['nomodel'] = True
         da, db, dab = gen.stream(A), gen.stream(B), gen.stream(A + B)
